@@ -44,6 +44,22 @@ func runC08(c *kit.Ctx) {
 		c.Check(enclosingNamed(a.Fn) == put || a.Fn == del, a.Fn, a.Kind, posOf(a.Instr), "tree mutation in put/del", "the region tree is mutated outside keyRegionCache.put/del: the eviction rules do not apply to that change")
 	}
 
+	// the overlap search and the insertion form one critical section
+	{
+		le := kit.NewLockEnv(p)
+		krcM := p.Field("", "keyRegionCache", "m")
+		n := 0
+		for _, s := range callersOf(p, kit.M("", "*keyRegionCache", "getOverlaps")) {
+			n++
+			held := le.At(s)
+			c.Check(krcM != nil && held.HoldsField(krcM, true) && enclosingNamed(s.Parent()) == put, s.Parent(), "overlaps-under-write-lock", s.Pos(), "overlaps are computed inside put with the write lock held (same critical section as the insertion: "+held.String()+")",
+				"the overlap search does not run under the cache's write lock in the critical section that inserts the region: two goroutines discovering mutually overlapping regions both see no overlap and both insert")
+		}
+		if n == 0 {
+			c.Unk(put, "overlaps-under-write-lock", put.Pos(), "getOverlaps is never called")
+		}
+	}
+
 	// ---- R2 ---------------------------------------------------------------
 	c.StartRule("R2", "evicted regions are marked dead", 2)
 	for _, fn := range []*ssa.Function{put, del} {
